@@ -19,11 +19,23 @@ class RefMask:
         return f"RefMask({self.value!r}, {self.flag!r})"
 
 
+class _Empty:
+    """Result of stacking zero elements: matches any tree whose leaves have a leading axis 0."""
+
+    def __repr__(self):
+        return "EMPTY"
+
+
+EMPTY = _Empty()
+
+
 def is_leaf(x):
     return not isinstance(x, (tuple, list, dict, RefMask)) and x is not None
 
 
 def tmap(f, t):
+    if t is EMPTY:
+        return EMPTY
     if isinstance(t, tuple):
         return tuple(tmap(f, x) for x in t)
     if isinstance(t, list):
@@ -40,6 +52,8 @@ def tmap(f, t):
 def tstack(ts):
     """Stack a non-empty list of equally structured trees along a new leading axis."""
     t0 = ts[0]
+    if t0 is EMPTY:
+        return EMPTY
     if isinstance(t0, tuple):
         return tuple(tstack([t[i] for t in ts]) for i in range(len(t0)))
     if isinstance(t0, list):
@@ -69,6 +83,8 @@ def tsum(t):
         return float(sum(tsum(x) for x in t)) if t else 0.0
     if isinstance(t, dict):
         return float(sum(tsum(v) for v in t.values())) if t else 0.0
+    if t is EMPTY:
+        return 0.0
     if isinstance(t, RefMask):
         if t.value is None:
             return 0.0
@@ -103,6 +119,8 @@ def tleaves(t):
 
 
 def tdescribe(t):
+    if t is EMPTY:
+        return "EMPTY"
     if isinstance(t, tuple):
         return "(" + ",".join(tdescribe(x) for x in t) + ")"
     if isinstance(t, list):
@@ -122,6 +140,14 @@ def tdescribe(t):
 def tcompare(real, ref, close, path="ret"):
     """Compare a normalised real tree with the reference tree.  Returns None if equal, else a
     short description of the first difference.  Masks: flags equal, values equal where valid."""
+    if ref is EMPTY:
+        for lf in tleaves(real):
+            if isinstance(lf, RefMask):
+                lf = lf.flag if lf.value is None else (tleaves(lf.value) or [lf.flag])[0]
+            a = np.asarray(lf)
+            if a.size != 0:
+                return f"{path}: expected an empty (zero-length) result, got shape {a.shape}"
+        return None
     if isinstance(ref, RefMask):
         if not isinstance(real, RefMask):
             # a concretely-true mask may legitimately come back unwrapped only if the
